@@ -49,7 +49,7 @@ def gen_cfg(rng, tier: str, big: bool = False, kind: str | None = None) -> dict:
         gt_sectors = 64
         cover = 4096 * grain
         if big:
-            ngt = rng.choice([1 << 17, (1 << 17) + 5, 1 << 18, 3 << 17])  # >= 2 TiB: more than 2^32 sectors
+            ngt = rng.choice([1 << 17, (1 << 17) + 5, 1 << 18, 3 << 17, 1 << 20])  # >= 2 TiB: more than 2^32 sectors
         else:
             ngt = rng.choice([1, 1, 2, 3, 4])
         nsectors = max(8, ngt * cover - rng.choice([0, 0, 8 * rng.randrange(4096), 8 * rng.randrange(4096) + rng.choice([0, 1, 7])]))
